@@ -118,6 +118,7 @@ class Ctx(object):
         self.known_hits = collections.Counter()
         self.known_witness = {}
         self.violation = None
+        self._seen_violation = None
         self.any_case = None
         self.t0 = time.time()
         self.searches = []
@@ -172,7 +173,11 @@ class Ctx(object):
                 unknown.append((tag, detail))
         if unknown:
             tag, detail = unknown[0]
-            raise Violation(tag, detail, driver, case)
+            v = Violation(tag, detail, driver, case)
+            # remember the smallest violating case seen, in case the engine itself trips while shrinking
+            if self._seen_violation is None or len(canon(case)) < len(canon(self._seen_violation.case)):
+                self._seen_violation = v
+            raise v
         return res
 
     def _keep_sample(self, driver, c):
@@ -220,6 +225,17 @@ class Ctx(object):
         except Violation as v:
             self.violation = v
             raise
+        except HarnessError:
+            raise
+        except Exception:
+            # an error inside the search engine (e.g. while shrinking).  If a violating case was already seen it is
+            # still a violation of the property - report the smallest one seen, unshrunk; otherwise a harness error
+            if self._seen_violation is not None:
+                self.notes.append("engine error while shrinking; reporting the smallest violating case seen: %s" %
+                                  traceback.format_exc().strip().split("\n")[-1][:200])
+                self.violation = self._seen_violation
+                raise self._seen_violation
+            raise HarnessError("search engine error in %s:\n%s" % (name, traceback.format_exc()))
         finally:
             self.searches.append({"name": name, "engine": "hypothesis",
                                   "budget": n, "executed": self.evaluations - before})
